@@ -60,6 +60,13 @@ type Ingress struct {
 	Paths       []string
 }
 
+var nsnameLists = map[string][]nsname.NSName{}
+
+// labelIs(v) accepts the objects whose label l is v; (fn 10+k) is labelIs(k).
+func labelIs(v string) func(metav1.Object) bool {
+	return func(o metav1.Object) bool { return o.GetLabels()["l"] == v }
+}
+
 // FNHook, when set, is called by predicate 2 (constant true) before it answers: a filter that takes its time.
 var FNHook func()
 
@@ -179,9 +186,16 @@ func (t Term) Build() filter.Filter {
 		}
 		return filter.Or(kids...)
 	case "nsname":
-		ids := make([]nsname.NSName, 0, len(t.IDs))
-		for _, id := range t.IDs {
-			ids = append(ids, nsname.New(id[0], id[1]))
+		// like a caller that keeps its id list around: every build of the same term hands the SAME slice to the
+		// constructor (a filter must not keep or modify what it was built from)
+		key := t.Sx()
+		ids, ok := nsnameLists[key]
+		if !ok {
+			ids = make([]nsname.NSName, 0, len(t.IDs))
+			for _, id := range t.IDs {
+				ids = append(ids, nsname.New(id[0], id[1]))
+			}
+			nsnameLists[key] = ids
 		}
 		return filter.NSName(ids...)
 	case "labels":
@@ -194,6 +208,10 @@ func (t Term) Build() filter.Filter {
 		}
 		return filter.Selector(labels.Everything())
 	case "fn":
+		if t.N >= 10 {
+			// closures of ONE function literal with different captured values
+			return filter.FN(labelIs(fmt.Sprint(t.N - 10)))
+		}
 		return filter.FN(FNs[t.N])
 	case "node":
 		return pod.NodeFilter(t.Strs...)
